@@ -373,8 +373,10 @@ Qed.
 
 Definition dead (s : state) (m : manifest) : Prop := lookup (m_out m) (files s) = None.
 Definition oks (l : list (path * file)) : Prop := forall p f, In (p, f) l -> f_ok f = true.
+(* no file carries full-key metadata unless B; no file carries metadata naming only part of the tags *)
 Definition nometa (B : bool) (l : list (path * file)) : Prop :=
-  B = false -> forall p f, In (p, f) l -> f_meta f = false.
+  (B = false -> forall p f, In (p, f) l -> f_meta f = false) /\
+  (forall p f, In (p, f) l -> f_part f = false).
 
 (* a state between jobs: every manifest left behind names an output that does not exist *)
 Record quiet (s : state) : Prop := mkQuiet {
@@ -411,8 +413,8 @@ Lemma job_steps_unfold compact ord ins s :
 Proof. reflexivity. Qed.
 
 Section Job.
-  Variable compact : bool -> list row -> list row.
-  Hypothesis compact_spec : forall b l, rel b l (compact b l).
+  Variable compact : dmode -> list row -> list row.
+  Hypothesis compact_spec : forall b l, rel b l (compact (mode_of_bool b) l).
   Variables out mp : path.
 
   Notation jsteps := (job_steps_named compact code_order out mp).
@@ -491,11 +493,17 @@ Section Job.
   Qed.
 
   Lemma meta_mode B s pres : nometa B (files s) ->
-    existsb (meta_in (files s)) pres = true -> B = true.
+    exists b, job_mode (files s) pres = mode_of_bool b /\ (b = true -> B = true).
   Proof.
-    intros Hn He. destruct B; [reflexivity|]. exfalso.
-    apply existsb_exists in He. destruct He as [p [_ Hm]]. unfold meta_in in Hm.
-    destruct (lookup p (files s)) eqn:E; [|discriminate].
+    intros [Hn Hp]. unfold job_mode.
+    assert (Ep : existsb (part_in (files s)) pres = false).
+    { destruct (existsb (part_in (files s)) pres) eqn:E; [|reflexivity]. exfalso.
+      apply existsb_exists in E. destruct E as [q [_ Hq]]. unfold part_in in Hq.
+      destruct (lookup q (files s)) eqn:El; [|discriminate]. apply lookup_Some_In in El. rewrite (Hp _ _ El) in Hq. discriminate. }
+    rewrite Ep. exists (existsb (meta_in (files s)) pres). split; [destruct (existsb (meta_in (files s)) pres); reflexivity|].
+    intros He. destruct B; [reflexivity|]. exfalso.
+    apply existsb_exists in He. destruct He as [q [_ Hm]]. unfold meta_in in Hm.
+    destruct (lookup q (files s)) eqn:E; [|discriminate].
     apply lookup_Some_In in E. rewrite (Hn eq_refl _ _ E) in Hm. discriminate.
   Qed.
 
@@ -530,10 +538,15 @@ Section Job.
         eapply rel_perm_l; [symmetry; apply (vis_split pres (files s) Hpn (q_files _ Q) Hpk)|].
         eapply rel_perm_r; [apply Permutation_app_comm|]. apply rel_frame.
         cbn [vis flat_map snd]. rewrite app_nil_r. unfold jout, job_output. cbn [f_rows]. fold pres.
-        eapply rel_le; [|apply compact_spec]. apply meta_mode. exact Hnm.
-      + intros HB q f Hin. apply in_app_or in Hin. destruct Hin as [Hin|[Hin|[]]].
-        * apply In_dels in Hin. apply (Hnm HB q f (proj1 Hin)).
-        * inversion Hin; subst. reflexivity.
+        destruct (meta_mode B s pres Hnm) as [b [Eb Hb]]. rewrite Eb.
+        eapply rel_le; [exact Hb|apply compact_spec].
+      + destruct Hnm as [Hn1 Hn2]. split.
+        * intros HB q f Hin. apply in_app_or in Hin. destruct Hin as [Hin|[Hin|[]]].
+          -- apply In_dels in Hin. apply (Hn1 HB q f (proj1 Hin)).
+          -- inversion Hin; subst. reflexivity.
+        * intros q f Hin. apply in_app_or in Hin. destruct Hin as [Hin|[Hin|[]]].
+          -- apply In_dels in Hin. apply (Hn2 q f (proj1 Hin)).
+          -- inversion Hin; subst. reflexivity.
   Qed.
 End Job.
 
@@ -588,8 +601,8 @@ Lemma size_of_neq0 l : N.eqb 0 (size_of l) = false.
 Proof. apply N.eqb_neq. unfold size_of. lia. Qed.
 
 Section Recover.
-  Variable compact : bool -> list row -> list row.
-  Hypothesis compact_spec : forall b l, rel b l (compact b l).
+  Variable compact : dmode -> list row -> list row.
+  Hypothesis compact_spec : forall b l, rel b l (compact (mode_of_bool b) l).
   Variables out mp : path.
   Notation jsteps := (job_steps_named compact code_order out mp).
 
@@ -659,7 +672,17 @@ Section Recover.
       exists (files_done compact out s ins). split; [|right; reflexivity].
       unfold m. rewrite <- (jsteps_eq compact out mp s ins Hne). rewrite run_done_any by assumption.
       apply recover_quiet.
-      destruct (job_done compact compact_spec out mp true s ins Q) as [Q' _]; [split; [exact Hout|split; [exact Hom0|exact Hmp]]|exact Hnd|intros HB; discriminate|exact Q'].
+      assert (Q' : quiet (mkState (files_done compact out s ins) (mans s))).
+      { unfold files_done. destruct (present s ins) eqn:E; [congruence|]. rewrite <- E.
+        constructor; cbn [files mans].
+        - apply NoDup_keys_snoc; [apply NoDup_keys_dels; apply (q_files _ Q)|]. intros H. apply keys_dels in H. tauto.
+        - apply (q_mans _ Q).
+        - intros mp0 m0 Hm0. unfold dead. cbn [files]. refine (old_dead_snoc s _ _ Q Hom _ mp0 m0 Hm0).
+          intros k' Hk'. apply keys_dels in Hk'. tauto.
+        - intros q f Hin. apply in_app_or in Hin. destruct Hin as [Hin|[Hin|[]]].
+          + apply In_dels in Hin. apply (q_ok _ Q q f (proj1 Hin)).
+          + inversion Hin; subst. reflexivity. }
+      exact Q'.
   Qed.
 End Recover.
 
@@ -996,8 +1019,12 @@ Proof.
   rewrite <- Ep.
   assert (Eo : job_output compact s (present s ins) = job_output compact s' (present s ins)).
   { unfold job_output.
-    assert (E1 : existsb (meta_in (files s)) (present s ins) = existsb (meta_in (files s')) (present s ins)).
-    { apply existsb_ext_in. intros p Hp. unfold meta_in. rewrite (H p (proj1 (present_in s ins p Hp))). reflexivity. }
+    assert (E1 : job_mode (files s) (present s ins) = job_mode (files s') (present s ins)).
+    { unfold job_mode.
+      rewrite (existsb_ext_in (meta_in (files s)) (meta_in (files s')) (present s ins)).
+      - rewrite (existsb_ext_in (part_in (files s)) (part_in (files s')) (present s ins)); [reflexivity|].
+        intros p Hp. unfold part_in. rewrite (H p (proj1 (present_in s ins p Hp))). reflexivity.
+      - intros p Hp. unfold meta_in. rewrite (H p (proj1 (present_in s ins p Hp))). reflexivity. }
     assert (E2 : flat_map (rows_in (files s)) (present s ins) = flat_map (rows_in (files s')) (present s ins)).
     { apply flat_map_ext_in. intros p Hp. unfold rows_in. rewrite (H p (proj1 (present_in s ins p Hp))). reflexivity. }
     rewrite E1, E2. reflexivity. }
@@ -1005,8 +1032,8 @@ Proof.
 Qed.
 
 Section Cycle.
-  Variable compact : bool -> list row -> list row.
-  Hypothesis compact_spec : forall b l, rel b l (compact b l).
+  Variable compact : dmode -> list row -> list row.
+  Hypothesis compact_spec : forall b l, rel b l (compact (mode_of_bool b) l).
   Variable pr : params.
   Notation jsteps := (job_steps compact code_order).
 
@@ -1087,7 +1114,7 @@ Section Cycle.
       rewrite Erec, Epre.
       assert (Hfr : fresh_for q' out mp).
       { split; [intros H; exact (fresh_path_files s (Hsub _ H))|]. split; [intros a b []|intros []]. }
-      destruct (recover_prefix compact compact_spec out mp q' ins k Q Hfr Hnd) as [F' [HF' [-> | ->]]].
+      destruct (recover_prefix compact out mp q' ins k Q Hfr Hnd) as [F' [HF' [-> | ->]]].
       + exists F. split; [exact HF'|]. split; [exact Q|split; assumption].
       + destruct (job_done compact compact_spec out mp B q' ins Q Hfr Hnd Hnm) as [Q' [R' N']].
         exists (files_done compact out q' ins). split; [exact HF'|]. split; [exact (quiet_nomans _ _ Q')|].
@@ -1297,9 +1324,9 @@ Section Cycle.
     induction h as [|[e ocs] r IH]; intros s Hc; cbn; [exact Hc|]. apply IH. apply cycle_inv. exact Hc.
   Qed.
 
-  Lemma nometa_any F : nometa (any_meta F) F.
+  Lemma nometa_any F : (forall p f, In (p, f) F -> f_part f = false) -> nometa (any_meta F) F.
   Proof.
-    intros HB p f Hin. unfold any_meta in HB.
+    intros Hp. split; [|exact Hp]. intros HB p f Hin. unfold any_meta in HB.
     destruct (f_meta f) eqn:E; [|reflexivity].
     assert (existsb (fun kv => f_meta (snd kv)) F = true) by (apply existsb_exists; exists (p, f); split; [exact Hin|exact E]).
     congruence.
@@ -1307,15 +1334,16 @@ Section Cycle.
 
   Theorem crash_recover cfg h elig s0 :
     NoDup (keys (files s0)) -> mans s0 = [] -> oks (files s0) ->
+    (forall p f, In (p, f) (files s0) -> f_part f = false) ->
     let s := cycle compact code_order pr cfg elig [] (lives cfg h s0) in
     rel (any_meta (files s0)) (visible s0) (visible s) /\
     mans s = [] /\ oks (files s) /\ NoDup (keys (files s)).
   Proof.
-    intros Hnd Hm Hok.
+    intros Hnd Hm Hok Hpart.
     assert (Q0 : quiet s0).
     { constructor; [exact Hnd|rewrite Hm; constructor|rewrite Hm; intros ? ? []|exact Hok]. }
     assert (C0 : pendV (any_meta (files s0)) (visible s0) s0).
-    { apply pv_quiet; [exact Q0|apply nometa_any|apply rel_refl]. }
+    { apply pv_quiet; [exact Q0|apply nometa_any; exact Hpart|apply rel_refl]. }
     destruct (cycle_clean _ _ cfg elig _ (lives_inv _ _ cfg h s0 C0)) as [Q [M R]].
     split; [exact R|]. split; [exact M|]. split; [apply (q_ok _ Q)|apply (q_files _ Q)].
   Qed.
@@ -1377,7 +1405,7 @@ Proof. unfold filter_candidates. rewrite filter_In, negb_true_iff, memb_false. t
 
 Lemma row_eqb_eq a b : row_eqb a b = true -> a = b.
 Proof.
-  destruct a, b. unfold row_eqb. cbn. rewrite andb_true_iff, !N.eqb_eq. intros [-> ->]. reflexivity.
+  destruct a, b. unfold row_eqb. cbn. rewrite !andb_true_iff, !N.eqb_eq. intros [[-> ->] ->]. reflexivity.
 Qed.
 
 Lemma remove_one_perm r : forall l l', remove_one r l = Some l' -> Permutation l (r :: l').
@@ -1414,35 +1442,35 @@ Proof.
     destruct d as [|x d']; [rewrite app_nil_r in Hd; exact Hd|cbn in Hl; lia].
 Qed.
 
-Lemma dedup_first_sub : forall l seen, exists d, Permutation l (dedup_first seen l ++ d).
+Lemma dedup_first_sub key : forall l seen, exists d, Permutation l (dedup_first key seen l ++ d).
 Proof.
   induction l as [|r t IH]; intros seen; cbn.
   - exists []. reflexivity.
-  - destruct (memb (r_key r) seen).
+  - destruct (memb (key r) seen).
     + destruct (IH seen) as [d Hd]. exists (r :: d). rewrite <- Permutation_middle. apply perm_skip. exact Hd.
-    + destruct (IH (r_key r :: seen)) as [d Hd]. exists d. cbn. apply perm_skip. exact Hd.
+    + destruct (IH (key r :: seen)) as [d Hd]. exists d. cbn. apply perm_skip. exact Hd.
 Qed.
 
-Lemma dedup_first_cover : forall l seen r, In r l ->
-  memb (r_key r) seen = true \/ exists r', In r' (dedup_first seen l) /\ r_key r' = r_key r.
+Lemma dedup_first_cover key : forall l seen r, In r l ->
+  memb (key r) seen = true \/ exists r', In r' (dedup_first key seen l) /\ key r' = key r.
 Proof.
   induction l as [|x t IH]; intros seen r Hin; [destruct Hin|]. cbn.
-  destruct (memb (r_key x) seen) eqn:E.
+  destruct (memb (key x) seen) eqn:E.
   - destruct Hin as [->|Hin]; [left; exact E|apply IH; exact Hin].
   - destruct Hin as [->|Hin].
     + right. exists r. split; [left; reflexivity|reflexivity].
-    + destruct (IH (r_key x :: seen) r Hin) as [Hm|[r' [Hr' Er']]].
+    + destruct (IH (key x :: seen) r Hin) as [Hm|[r' [Hr' Er']]].
       * apply memb_In in Hm. destruct Hm as [Ek|Hm].
         -- right. exists x. split; [left; reflexivity|exact Ek].
         -- left. apply memb_In. exact Hm.
       * right. exists r'. split; [right; exact Hr'|exact Er'].
 Qed.
 
-Theorem dedup_ref_spec b l : rel b l (dedup_ref b l).
+Theorem dedup_ref_spec b l : rel b l (dedup_ref (mode_of_bool b) l).
 Proof.
   destruct b; cbn; [|reflexivity]. split.
   - apply dedup_first_sub.
-  - intros r Hr. destruct (dedup_first_cover l [] r Hr) as [H|H]; [discriminate|exact H].
+  - intros r Hr. destruct (dedup_first_cover r_key l [] r Hr) as [H|H]; [discriminate|exact H].
 Qed.
 
 (* ------------------------------------------------------------------------------------ *)
@@ -1451,7 +1479,7 @@ Qed.
 
 Definition wit_params : params := mkParams 2 30 500 4.
 Definition wit_cfg : config := mkConfig 2 10.
-Definition wit_file (k : N) : file := mkFile [mkRow k k] false false 2%N true.
+Definition wit_file (k : N) : file := mkFile [mkRow k k k] false false false 2%N true.
 Definition wit_s0 : state :=
   mkState [(1%N, wit_file 1); (2%N, wit_file 2); (3%N, wit_file 3); (4%N, wit_file 4)] [].
 
@@ -1477,4 +1505,28 @@ Definition wit_bad_final : state :=
 Lemma order_necessary : ~ rel false (visible wit_s0) (visible wit_bad_final).
 Proof.
   intros H. cbn [rel] in H. apply Permutation_length in H. vm_compute in H. discriminate.
+Qed.
+
+(* Re-compaction with PARTIAL tag metadata loses rows.  f1 and f2 carry the full tag set and
+   hold two rows that agree on the partial key (same host and time) and differ in the other tag;
+   f3 and f4 carry arc:tags naming only part of the tag columns.  The first batch [f1,f2] is
+   compacted (the output carries NO metadata), the cycle ends before the second batch; the next
+   cycle compacts [f3, f4, output] with the union of the inputs' tag metadata = the partial
+   set, so the two rows collapse: a row with non-identical tag values is lost. *)
+Definition part_s0 : state :=
+  mkState [(1%N, mkFile [mkRow 1 1 10] true false false 2%N true);
+           (2%N, mkFile [mkRow 2 1 11] true false false 2%N true);
+           (3%N, mkFile [mkRow 3 3 12] false true false 2%N true);
+           (4%N, mkFile [mkRow 4 4 13] false true false 2%N true)] [].
+Definition part_final : state :=
+  cycle dedup_ref code_order wit_params (mkConfig 2 2) true []
+    (cycle dedup_ref code_order wit_params (mkConfig 2 2) true [ODone; OCrash 0] part_s0).
+
+Lemma partial_tags_lose_rows :
+  visible part_final = [mkRow 3 3 12; mkRow 4 4 13; mkRow 1 1 10] /\
+  ~ rel (any_meta (files part_s0)) (visible part_s0) (visible part_final).
+Proof.
+  split; [vm_compute; reflexivity|]. change (any_meta (files part_s0)) with true. cbn [rel].
+  intros [_ K]. destruct (K (mkRow 2 1 11)) as [r' [Hr' Ek]]; [vm_compute; auto|].
+  vm_compute in Hr'. destruct Hr' as [<-|[<-|[<-|[]]]]; discriminate.
 Qed.
